@@ -362,6 +362,27 @@ where
     C::Hasher: AlgebraicHasher<F>,
     W: WitnessWrite<F>,
 {
+    // The openings are assigned batch by batch and the optional parts only where both sides have
+    // them: make sure the proof has the shape of the target, so that a proof with other parts or
+    // with its openings grouped differently is not assigned as if it were well-formed.
+    {
+        fn same<A, B>(target: &Option<Vec<A>>, value: &Option<Vec<B>>) -> bool {
+            target.as_ref().map(|v| v.len()) == value.as_ref().map(|v| v.len())
+        }
+        let (ot, o) = (&proof_target.openings, &proof.openings);
+        ensure!(
+            proof_target.auxiliary_polys_cap.is_some() == proof.auxiliary_polys_cap.is_some()
+                && proof_target.quotient_polys_cap.is_some() == proof.quotient_polys_cap.is_some()
+                && ot.local_values.len() == o.local_values.len()
+                && ot.next_values.len() == o.next_values.len()
+                && same(&ot.auxiliary_polys, &o.auxiliary_polys)
+                && same(&ot.auxiliary_polys_next, &o.auxiliary_polys_next)
+                && same(&ot.ctl_zs_first, &o.ctl_zs_first)
+                && same(&ot.quotient_polys, &o.quotient_polys),
+            "The STARK proof does not have the shape of its target."
+        );
+    }
+
     witness.set_target(
         proof_target.degree_bits,
         F::from_canonical_usize(pis_degree_bits),
